@@ -475,8 +475,9 @@ static void _client_query_status_reply_nointerp(Client * c, bool error)
 
     itr = arglist_iterator_create(c->cmd->arglist);
     while ((arg = arglist_next(itr))) {
-        _client_printf(c, CP_INFO_XSTATUS, arg->node, arg->val);
-        if (!arg->val)
+        if (arg->val)
+            _client_printf(c, CP_INFO_XSTATUS, arg->node, arg->val);
+        else
             hostlist_push(hl, arg->node);
     }
     arglist_iterator_destroy(itr);
